@@ -38,7 +38,7 @@ def verification_point(curve, Q, e, r, s):
     """(e/s) G + (r/s) Q for r, s in [1, n-1] (None = the point at infinity)."""
     n = curve.n
     w = pow(s, -1, n)
-    return curve.add(curve.mul(e * w % n, curve.G), curve.mul(r * w % n, Q))
+    return curve.lincomb(e * w % n, curve.G, r * w % n, Q)
 
 
 def verify(curve, Q, e, r, s):
@@ -50,6 +50,16 @@ def verify(curve, Q, e, r, s):
     if X is INF:
         return False
     return X[0] % n == r
+
+
+def verify_two_ladders(curve, Q, e, r, s):
+    """4.1.4 with two separate scalar multiplications and one affine addition (cross-check of the joint ladder)."""
+    n = curve.n
+    if not (1 <= r < n and 1 <= s < n):
+        return False
+    w = pow(s, -1, n)
+    X = curve.add(curve.mul_affine(e * w % n, curve.G), curve.mul(r * w % n, Q))
+    return X is not INF and X[0] % n == r
 
 
 def verify_by_definition(curve, d, e, r, s):
@@ -226,7 +236,7 @@ def selftest(full=False):
             for e in (range(n) if n <= 13 else (0, 1, n - 1)):
                 for r in range(0, n + 2):
                     for s in range(0, n + 2):
-                        assert verify(c, pub[d], e, r, s) == verify_by_definition(c, d, e, r, s), (c.name, d, e, r, s)
+                        assert verify(c, pub[d], e, r, s) == verify_by_definition(c, d, e, r, s) == verify_two_ladders(c, pub[d], e, r, s), (c.name, d, e, r, s)
                         stats["verify_table"] += 1
         # deterministic signer: closure in both message-representative modes, z spread over top bits
         for d in range(1, n):
@@ -256,7 +266,8 @@ def selftest(full=False):
             sg = rfc6979_sign(c, d, z)
             Q = c.mul(d, c.G)
             assert sg["first_ok"] and verify(c, Q, z, sg["r"], sg["s"]) and Q in recover(c, z, sg["r"], sg["s"])
-            assert not verify(c, c.neg(Q), z, sg["r"], sg["s"])
+            assert not verify(c, c.neg(Q), z, sg["r"], sg["s"]) and not verify_two_ladders(c, c.neg(Q), z, sg["r"], sg["s"])
+            assert verify_two_ladders(c, Q, z, sg["r"], sg["s"]) and verify(c, Q, z + c.n, sg["r"], c.n - sg["s"])
             # degenerate: r = -z/d makes (z/s)G + (r/s)Q the identity
             rdeg = -z * pow(d, -1, c.n) % c.n
             assert verify(c, Q, z, rdeg, 1) is False
